@@ -178,11 +178,12 @@ theorem clampStep_ok (v : Vec) (hlo : 0 < cfg.stepMin) (hlh : cfg.stepMin ≤ cf
 
 /-- **step_in_bounds**: after every corrector call (accept or reject) the step vector handed to the next prediction has
 every non-zero component's magnitude inside `[step_min, step_max]` (zero components stay zero, signs are preserved by
-`clampComp_sign`); a rejection replaces the step by `clamp(step/2)`. -/
+`clampComp_sign`); a rejection replaces the step by `clamp(shrink · step)` — `shrink = 1/2` unless a custom shrink policy is configured, and
+the clamp applies to EVERY policy. -/
 theorem step_in_bounds (s : St) (o : Outcome) (hlo : 0 < cfg.stepMin) (hlh : cfg.stepMin ≤ cfg.stepMax) :
     StepOK cfg (step cfg norm s o).step ∧
     (∀ c p, o = .ok c p → (step cfg norm s o).step = clampStep cfg.stepMin cfg.stepMax s.step) ∧
-    (o = .fail → (step cfg norm s o).step = clampStep cfg.stepMin cfg.stepMax (vscale (1/2) s.step)) := by
+    (o = .fail → (step cfg norm s o).step = clampStep cfg.stepMin cfg.stepMax (vscale cfg.shrink s.step)) := by
   cases o with
   | ok c p => exact ⟨clampStep_ok cfg _ hlo hlh, (fun _ _ _ => rfl), (fun h => by cases h)⟩
   | fail => exact ⟨clampStep_ok cfg _ hlo hlh, (fun _ _ h => by cases h), (fun _ => rfl)⟩
